@@ -1,7 +1,726 @@
-"""Extended runner: components and factory floor (built on impl.Runner)."""
-from impl import *  # noqa
+"""Extended runner: builds real simprocesd objects (resource manager, devices, groups, maintainers,
+schedulers, sensors) from scenario lines and prints the same canonical state dump as the model
+driver (lean/Driver.lean)."""
+import functools
+
 import impl
+from impl import Runner, ScriptAction, ticks, TICK, CTX  # noqa: F401
+
+from simprocesd.model import System, EventType  # noqa: F401
+from simprocesd.model.factory_floor import (Source, Sink, PartHandler, PartProcessor, Buffer, DecisionGate,
+                                            PartBatcher, Group, Maintainer, ActionScheduler, Part, Batch,
+                                            PartGenerator)
+from simprocesd.model.factory_floor.group import GroupInput, GroupOutput, GroupPath
+from simprocesd.model.factory_floor.maintainer import Maintainable
+import simprocesd.model.factory_floor.maintainer as maintainer_mod
+from simprocesd.model.sensors import PeriodicSensor, OutputPartSensor, Probe
+from simprocesd.model.cms import Cms
+from simprocesd.model.simulation import Environment
+
+INF = float('inf')
 
 
-class FullRunner(impl.Runner):
-    pass
+def ival(v):
+    """Canonical rendering of an amount / value (integer expected)."""
+    if v is None:
+        return '-'
+    if v == INF:
+        return 'inf'
+    if isinstance(v, bool):
+        return '1' if v else '0'
+    if float(v) == int(v):
+        return str(int(v))
+    return 'f' + repr(float(v))
+
+
+def jn(sep, items):
+    items = list(items)
+    return sep.join(items) if items else '-'
+
+
+# ---- instrumentation applied from outside ----------------------------------------------------
+_orig_part_init = Part.__init__
+
+
+def _part_init(self, *a, **kw):
+    _orig_part_init(self, *a, **kw)
+    r = impl.CTX
+    if r is not None and hasattr(r, 'parts'):
+        r.pid[self.id] = len(r.parts)
+        r.parts.append(self)
+
+
+Part.__init__ = _part_init
+
+_orig_wo_init = maintainer_mod._WorkOrder.__init__
+
+
+def _wo_init(self, target, tag, needed_capacity, info):
+    _orig_wo_init(self, target, tag, needed_capacity, info)
+    r = impl.CTX
+    if r is not None and getattr(r, 'maint_stack', None):
+        m = r.maint_stack[-1]
+        self._vseq = r.wo_seq.get(id(m), 0)
+        r.wo_seq[id(m)] = self._vseq + 1
+
+
+maintainer_mod._WorkOrder.__init__ = _wo_init
+
+_orig_create_wo = Maintainer.create_work_order
+
+
+def _create_wo(self, target, tag=None, info=None):
+    r = impl.CTX
+    if r is None or not hasattr(r, 'maint_stack'):
+        return _orig_create_wo(self, target, tag, info)
+    r.maint_stack.append(self)
+    try:
+        return _orig_create_wo(self, target, tag, info)
+    finally:
+        r.maint_stack.pop()
+
+
+Maintainer.create_work_order = _create_wo
+
+
+class GenX(PartGenerator):
+    def __init__(self, prefix, value, quality, batchof):
+        super().__init__(prefix, value, quality)
+        self.batchof = batchof
+
+    def generate_part_helper(self, part_name, part_counter):
+        if self.batchof == 0:
+            return Part(part_name, self.value, self.quality)
+        n = max(self.batchof, 0)
+        return Batch(part_name, [Part(f'{part_name}_{i}', self.value, self.quality) for i in range(n)])
+
+
+class TargetMixin:
+    """Work-order parameters from the scenario's target table; hooks are logged."""
+    _vrunner = None
+    _vtgt = None
+
+    def _params(self, tag):
+        r = self._vrunner
+        if r is None or self._vtgt is None:
+            return (0, 0, 0)
+        return r.targets[self._vtgt]['params'].get(tag, (0, 0, 0))
+
+    def get_work_order_duration(self, tag):
+        return self._params(tag)[0] / TICK
+
+    def get_work_order_capacity(self, tag):
+        return self._params(tag)[1]
+
+    def get_work_order_cost(self, tag):
+        return self._params(tag)[2]
+
+
+class ProcX(TargetMixin, PartProcessor):
+    def start_work(self, tag):
+        if self._vtgt is not None:
+            self._vrunner.results.append(f'hook start {self._vtgt} {tag}')
+        PartProcessor.start_work(self, tag)
+
+    def end_work(self, tag):
+        if self._vtgt is not None:
+            self._vrunner.results.append(f'hook end {self._vtgt} {tag}')
+        PartProcessor.end_work(self, tag)
+
+
+class FakeTarget(TargetMixin, Maintainable):
+    def __init__(self, runner, tgt, start, end):
+        self._vrunner = runner
+        self._vtgt = tgt
+        self.name = f'T{tgt}'
+        self._start, self._end = start, end
+
+    def start_work(self, tag):
+        r = self._vrunner
+        r.results.append(f'hook start {self._vtgt} {tag}')
+        if self._start is not None:
+            ScriptAction(r, self._start)()
+
+    def end_work(self, tag):
+        r = self._vrunner
+        r.results.append(f'hook end {self._vtgt} {tag}')
+        if self._end is not None:
+            ScriptAction(r, self._end)()
+
+
+class SchedX(ActionScheduler):
+    _vrunner = None
+    _vidx = None
+
+    def default_action(self, obj, time, new_state):
+        self._vrunner.results.append(f'act {self._vidx} {obj.k} {ticks(time)} {ival(new_state)} -')
+
+
+class Obj:
+    def __init__(self, k):
+        self.k = k
+
+
+class Var:
+    """A probed object whose attribute is a mutable list (so that a missing copy is visible)."""
+
+    def __init__(self):
+        self.x = [0]
+
+
+def kvs(toks):
+    d = {}
+    for t in toks:
+        if '=' in t:
+            k, v = t.split('=', 1)
+            d[k] = v
+    return d
+
+
+def plist(s, sep=','):
+    return [] if s in ('-', '', None) else s.split(sep)
+
+
+def preq(s):
+    return {f'r{a}': int(b) for a, b in (e.split(':') for e in plist(s, ';'))}
+
+
+class FullRunner(Runner):
+    def reset(self):
+        super().reset()
+        self.devs = []
+        self.dev_idx = {}        # id(object) -> device index
+        self.maints = []
+        self.scheds = []
+        self.sensors = []
+        self.cmss = []
+        self.targets = []
+        self.tgt_of = {}         # id(target object) -> target index
+        self.parts = []
+        self.pid = {}
+        self.vars = []
+        self.svars = []
+        self.objs = {}
+        self.groups = {}
+        self.maint_stack = []
+        self.wo_seq = {}
+        self.records = []
+        self.n_assets = 0
+        self.names = {}
+        env = self.env
+        runner = self
+        orig_add = env.add_datapoint
+
+        def add_datapoint(label, sub, dp):
+            runner.records.append((label, sub, dp))
+            return orig_add(label, sub, dp)
+        env.add_datapoint = add_datapoint
+
+    # ---- registration bookkeeping -----------------------------------------------------------
+    def _sync_assets(self):
+        """Assign asset ids (registration index + 1) to newly registered assets."""
+        assets = self.system._assets
+        new = assets[self.n_assets:]
+        for a in new:
+            self.n_assets += 1
+            self.id2idx[a.id] = self.n_assets
+        return new
+
+    def add_dev(self, obj):
+        self.dev_idx[id(obj)] = len(self.devs)
+        self.devs.append(obj)
+
+    def didx(self, obj):
+        return self.dev_idx.get(id(obj), -1)
+
+    # ---- canonical action codes -------------------------------------------------------------
+    def act_code_ext(self, action):
+        if isinstance(action, functools.partial):
+            f = action.func
+            m = getattr(f, '__self__', None)
+            if isinstance(m, Maintainer) and m in self.maints:
+                mi = self.maints.index(m)
+                o = action.keywords['request']._vseq
+                kind = 7 if f.__func__.__name__ == '_start_work_order' else 8
+                return kind + 16 * (mi + 256 * o)
+            return 15
+        f = getattr(action, '__func__', None)
+        s = getattr(action, '__self__', None)
+        if f is None:
+            return 15
+        n = f.__name__
+        if isinstance(s, Environment):
+            return 15
+        if n == '_check_pending_requests':
+            return 6
+        if id(s) in self.dev_idx:
+            d = self.dev_idx[id(s)]
+            k = {'_finish_cycle': 2, '_pass_part_downstream': 3, '_fail': 4, '_release_resources_if_idle': 5}.get(n)
+            if k is not None:
+                return k + 16 * d
+        if n == '_update_state' and s in self.scheds:
+            return 9 + 16 * self.scheds.index(s)
+        if n == '_periodic_sense' and s in self.sensors:
+            return 10 + 16 * self.sensors.index(s)
+        return 15
+
+    def real_asset(self, a):
+        if a > 0:
+            for real, idx in self.id2idx.items():
+                if idx == a:
+                    return real
+        return a
+
+    # ---- scenario lines ---------------------------------------------------------------------
+    def handle_ext(self, toks):
+        k = toks[0]
+        if k == 'res':
+            r = self.do_op(['addres', toks[1], toks[2]])
+            if r != 'ok':
+                self.out.append('res ' + r)
+        elif k == 'asset':
+            self.make_asset(toks[1:])
+            self._sync_assets()
+        elif k == 'target':
+            kv = kvs(toks[2:])
+            params = {}
+            for e in plist(kv.get('params', '-')):
+                t, d, n, c = e.split(':')
+                params[int(t)] = (int(d), int(n), int(c))
+            tgt = len(self.targets)
+            dev = kv.get('dev', '-')
+            start = None if kv.get('start', '-') == '-' else int(kv['start'])
+            end = None if kv.get('end', '-') == '-' else int(kv['end'])
+            if dev != '-':
+                obj = self.devs[int(dev)]
+                obj._vrunner = self
+                obj._vtgt = tgt
+            else:
+                obj = FakeTarget(self, tgt, start, end)
+            self.targets.append({'obj': obj, 'params': params})
+            self.tgt_of[id(obj)] = tgt
+        elif k == 'var':
+            self.set_var(int(toks[1]), int(toks[2]))
+        elif k == 'wire':
+            self.devs[int(toks[1])].set_upstream([self.devs[int(u)] for u in plist(toks[2])])
+        else:
+            super().handle_ext(toks)
+
+    def set_var(self, k, v):
+        while len(self.svars) <= k:
+            self.svars.append(Var())
+        self.svars[k].x[0] = v
+
+    def make_part_cb(self, spec):
+        c, o, v, q = spec.split(':')
+        set_cycle = None if c == '-' else int(c)
+        off = int(o)
+        addv = int(v)
+        setq = None if q == '-' else int(q)
+
+        def cb(dev, part):
+            if set_cycle is not None:
+                dev.cycle_time = set_cycle / TICK
+            dev.offset_next_cycle_time(off / TICK)
+            if not isinstance(part, Batch):
+                if addv != 0:
+                    part.add_value('cb', addv)
+                if setq is not None:
+                    part.quality = setq
+        return cb
+
+    def make_asset(self, toks):
+        t = toks[0]
+        if t == 'dev':
+            self.make_dev(toks[1], kvs(toks[2:]))
+        elif t == 'group':
+            gid = int(toks[1])
+            kv = kvs(toks[2:])
+            devs = [self.devs[int(i)] for i in plist(kv.get('devs', '-'))]
+            ins = None if kv.get('in', '-') == '-' else [self.devs[int(i)] for i in plist(kv['in'])]
+            outs = None if kv.get('out', '-') == '-' else [self.devs[int(i)] for i in plist(kv['out'])]
+            g = Group(f'G{gid}', devs, ins, outs)
+            self.groups[gid] = g
+            self.add_dev(g._input_device)
+            self.add_dev(g._output_device)
+        elif t == 'maint':
+            kv = kvs(toks[1:])
+            i = len(self.maints)
+            args = {}
+            if kv.get('cap', 'def') not in ('def',):
+                args['capacity'] = INF if kv['cap'] == 'inf' else int(kv['cap'])
+            m = Maintainer(f'M{i}', value=int(kv.get('value', '0')), **args)
+            self.maints.append(m)
+        elif t == 'sched':
+            kv = kvs(toks[1:])
+            i = len(self.scheds)
+            tt = [(int(a) / TICK, int(b)) for a, b in (e.split(':') for e in plist(kv.get('tt', '-')))]
+            args = {}
+            if kv.get('cyc', 'def') != 'def':
+                args['is_cyclical'] = kv['cyc'] == '1'
+            s = SchedX(tt, f'S{i}', **args)
+            s._vrunner = self
+            s._vidx = i
+            self.scheds.append(s)
+        elif t == 'sensor':
+            kind = toks[1]
+            kv = kvs(toks[2:])
+            i = len(self.sensors)
+            args = {}
+            if kv.get('cap', 'def') not in ('def',):
+                args['data_capacity'] = INF if kv['cap'] == 'inf' else int(kv['cap'])
+            if kind == 'per':
+                probes = []
+                for v in plist(kv.get('vars', '-')):
+                    self.set_var(int(v), self.svars[int(v)].x[0] if int(v) < len(self.svars) else 0)
+                    probes.append(Probe(lambda tgt: tgt.x, self.svars[int(v)]))
+                s = PeriodicSensor(int(kv.get('interval', '16')) / TICK, probes, f'N{i}', **args)
+            else:
+                probes = [Probe((lambda tgt: tgt.quality) if a == '0' else (lambda tgt: tgt.value), None)
+                          for a in plist(kv.get('attrs', '-'))]
+                if kv.get('n', 'def') != 'def':
+                    args['sensing_interval'] = int(kv['n'])
+                s = OutputPartSensor(self.devs[int(kv['proc'])], probes, name=f'N{i}', **args)
+            runner = self
+            for c in range(int(kv.get('cbs', '0'))):
+                def on_sense(sensor, time, data, c=c, i=i):
+                    ok = sensor is runner.sensors[i]
+                    runner.results.append(f'sense {i} {c} {ticks(time)} {jn(";", (runner.sval(x) for x in data))}'
+                                          + ('' if ok else ' badargs'))
+                s.add_on_sense_callback(on_sense)
+            self.sensors.append(s)
+        elif t == 'cms':
+            i = len(self.cmss)
+            runner = self
+
+            class CmsX(Cms):
+                def on_sense(self, sensor, time, data):
+                    si = runner.sensors.index(sensor)
+                    runner.results.append(f'sense {si} {1000 + i} {ticks(time)} {jn(";", (runner.sval(x) for x in data))}')
+            self.cmss.append(CmsX(None, f'C{i}'))
+        else:
+            self.out.append('harness-error bad-asset ' + ' '.join(toks))
+
+    def sval(self, x):
+        if isinstance(x, list):
+            return ival(x[0])
+        return ival(x)
+
+    def make_dev(self, kind, kv):
+        i = len(self.devs)
+        name = f'D{i}'
+        ups = [self.devs[int(u)] for u in plist(kv.get('up', '-'))]
+        cyc = int(kv.get('cyc', '0')) / TICK
+        value = int(kv.get('value', '0'))
+        if kind == 'source':
+            args = {}
+            if kv.get('budget', 'def') != 'def':
+                args['starting_parts'] = INF if kv['budget'] == 'inf' else int(kv['budget'])
+            gen = GenX(f'P{i}', int(kv.get('pval', '0')), int(kv.get('pqual', '1')), int(kv.get('batchof', '0')))
+            d = Source(name, gen, cyc, **args)
+        elif kind == 'handler':
+            d = PartHandler(name, ups, cyc, value)
+        elif kind == 'processor':
+            res = preq(kv['res']) if 'res' in kv else None
+            d = ProcX(name, ups, cyc, value, res)
+            for spec in plist(kv.get('fincb', '-')):
+                d.add_finish_processing_callback(self.make_part_cb(spec))
+            runner = self
+            for c in range(int(kv.get('nshut', '0'))):
+                def shut(dev, is_failure, lost, c=c, i=i):
+                    runner.results.append(f'shut {i} {c} {1 if is_failure else 0} '
+                                          f'{runner.pid.get(lost.id, "?") if lost is not None else "-"}')
+                d.add_shutdown_callback(shut)
+            for c in range(int(kv.get('nrest', '0'))):
+                def rest(dev, c=c, i=i):
+                    runner.results.append(f'restored {i} {c}')
+                d.add_restored_callback(rest)
+        elif kind == 'buffer':
+            args = {}
+            if kv.get('cap', 'def') != 'def':
+                args['capacity'] = None if kv['cap'] == 'inf' else int(kv['cap'])
+            d = Buffer(name, ups, int(kv.get('delay', '0')) / TICK, value=value, **args)
+        elif kind == 'gate':
+            pred = kv.get('pred', 'always').split(':')
+
+            def decider(gate, part, pred=pred):
+                if pred[0] == 'always':
+                    return True
+                if pred[0] == 'never':
+                    return False
+                x = part.quality if pred[0][0] == 'q' else part.value
+                return x >= int(pred[1]) if pred[0].endswith('ge') else x < int(pred[1])
+            d = DecisionGate(name, ups, decider)
+        elif kind == 'batcher':
+            bsz = kv.get('bsz', '-')
+            d = PartBatcher(name, ups, value, None if bsz in ('-', 'def', 'inf') else int(bsz))
+        elif kind == 'sink':
+            d = Sink(name, ups, cyc, kv.get('collect', '0') == '1')
+        elif kind == 'gpath':
+            d = self.groups[int(kv['group'])].get_new_group_path(name, ups)
+        else:
+            self.out.append('harness-error bad-kind ' + kind)
+            return
+        if kind in ('handler', 'processor', 'sink', 'buffer', 'batcher'):
+            for spec in plist(kv.get('recvcb', '-')):
+                d.add_receive_part_callback(self.make_part_cb(spec))
+        self.add_dev(d)
+
+    # ---- scripted operations ----------------------------------------------------------------
+    def get_var(self, h):
+        return self.vars[h] if h < len(self.vars) else None
+
+    def set_hvar(self, h, v):
+        while len(self.vars) <= h:
+            self.vars.append(None)
+        self.vars[h] = v
+
+    def do_op_ext(self, toks):
+        op = toks[0]
+        rm = self.system.resource_manager
+        env = self.env
+        if op == 'addres':
+            rm.add_resources(f'r{toks[1]}', int(toks[2]))
+            return 'ok'
+        if op == 'reserve':
+            r = rm.reserve_resources(preq(toks[2]))
+            self.set_hvar(int(toks[1]), r)
+            return 'ret none' if r is None else 'ret some'
+        if op == 'release':
+            v = self.get_var(int(toks[1]))
+            if len(toks) > 2:
+                v.release(preq(toks[2]))
+            else:
+                v.release()
+            return 'ok'
+        if op == 'merge':
+            a, b = self.get_var(int(toks[1])), self.get_var(int(toks[2]))
+            a.merge(b)
+            return 'ok'
+        if op == 'register':
+            k = int(toks[1])
+            req = preq(toks[2])
+            runner = self
+
+            def cb(manager, request, k=k, req=req):
+                ok = manager is rm and request == req and request is not req
+                runner.results.append(f'cb {k}' + ('' if ok else ' badargs'))
+                ScriptAction(runner, k)()
+            cb.k = k
+            rm.reserve_resources_with_callback(req, cb)
+            return 'ok'
+        if op in ('schedfail', 'schedfailrel'):
+            t = int(toks[2]) / self.tick
+            if op == 'schedfailrel':
+                t = env.now + t
+            self.devs[int(toks[1])].schedule_failure(t)
+            return 'ok'
+        if op == 'shutdown':
+            self.devs[int(toks[1])].shutdown()
+            return 'ok'
+        if op == 'restore':
+            self.devs[int(toks[1])].restore_functionality()
+            return 'ok'
+        if op == 'block':
+            self.devs[int(toks[1])].block_input = toks[2] == '1'
+            return 'ok'
+        if op == 'adjust':
+            self.devs[int(toks[1])].adjust_part_count(int(toks[2]))
+            return 'ok'
+        if op == 'setcycle':
+            self.devs[int(toks[1])].cycle_time = int(toks[2]) / self.tick
+            return 'ok'
+        if op == 'offset':
+            self.devs[int(toks[1])].offset_next_cycle_time(int(toks[2]) / self.tick)
+            return 'ok'
+        if op == 'rewire':
+            self.devs[int(toks[1])].set_upstream([self.devs[int(u)] for u in plist(toks[2])])
+            return 'ok'
+        if op == 'wo':
+            m = self.maints[int(toks[1])]
+            r = m.create_work_order(self.targets[int(toks[2])]['obj'], int(toks[3]), int(toks[4]))
+            return 'ret 1' if r else 'ret 0'
+        if op == 'setparams':
+            self.targets[int(toks[1])]['params'][int(toks[2])] = (int(toks[3]), int(toks[4]), int(toks[5]))
+            return 'ok'
+        if op == 'regobj':
+            s = self.scheds[int(toks[1])]
+            k = int(toks[2])
+            obj = self.objs.setdefault(k, Obj(k))
+            ovr = None
+            if toks[3] != '-':
+                o = int(toks[3])
+                runner = self
+
+                def ovr(sched, ob, time, state, o=o):
+                    ok = sched is s
+                    runner.results.append(f'act {s._vidx} {ob.k} {ticks(time)} {ival(state)} {o}'
+                                          + ('' if ok else ' badargs'))
+            r = s.register_object(obj, ovr)
+            return 'ret 1' if r else 'ret 0'
+        if op == 'unregobj':
+            s = self.scheds[int(toks[1])]
+            k = int(toks[2])
+            obj = self.objs.setdefault(k, Obj(k))
+            r = s.unregister_object(obj)
+            return 'ret 1' if r else 'ret 0'
+        if op == 'setvar':
+            self.set_var(int(toks[1]), int(toks[2]))
+            return 'ok'
+        if op == 'addsensor':
+            self.cmss[int(toks[1])].add_sensor(self.sensors[int(toks[2])])
+            return 'ok'
+        return super().do_op_ext(toks)
+
+    # ---- state dump -------------------------------------------------------------------------
+    def rid(self, name):
+        return name[1:]
+
+    def req_str(self, d):
+        return jn(';', (f'{self.rid(k)}:{ival(v)}' for k, v in d.items()))
+
+    def pidx(self, p):
+        return str(self.pid.get(p.id, '?')) if p is not None else '-'
+
+    def rec_line(self, label, sub, dp):
+        if label == 'resource_update':
+            return f'rec resource_update {self.rid(sub)} {ticks(dp[0])} {ival(dp[1])} {ival(dp[2])}'
+        names = self.name_map()
+        if label == 'level':
+            return f'rec level {names.get(sub, "?")} {ticks(dp[0])} {ival(dp[1])}'
+        if label in ('received_part', 'produced_part'):
+            return f'rec {label} {names.get(sub, "?")} {ticks(dp[0])} {self.pid.get(dp[1], "?")} {ival(dp[2])} {ival(dp[3])}'
+        if label == 'device_failure':
+            return f'rec device_failure {names.get(sub, "?")} {ticks(dp[0])} {self.pid.get(dp[1], "?") if dp[1] is not None else "-"}'
+        if label == 'supplied_new_part':
+            return f'rec supplied_new_part {names.get(sub, "?")} {ticks(dp[0])} {self.pid.get(dp[1], "?")}'
+        if label in ('enter_queue', 'start_work_order', 'finish_work_order'):
+            tn = self.tname_map()
+            return f'rec {label} {names.get(sub, "?")} {ticks(dp[0])} {tn.get(dp[1], "?")} {ival(dp[2])} {ival(dp[3])}'
+        if label == 'schedule_update':
+            return f'rec schedule_update {names.get(sub, "?")} {ticks(dp[0])} {ival(dp[1])}'
+        return f'rec {label} ? {dp}'
+
+    def name_map(self):
+        m = {}
+        for i, d in enumerate(self.devs):
+            m[d.name] = i
+        for i, d in enumerate(self.maints):
+            m[d.name] = i
+        for i, d in enumerate(self.scheds):
+            m[d.name] = i
+        return m
+
+    def tname_map(self):
+        return {getattr(t['obj'], 'name', 'N/A'): i for i, t in enumerate(self.targets)}
+
+    def kind_of(self, d):
+        for cls, k in ((Source, 'source'), (Sink, 'sink'), (Buffer, 'buffer'), (PartBatcher, 'batcher'),
+                       (PartProcessor, 'processor'), (PartHandler, 'handler'), (DecisionGate, 'gate'),
+                       (GroupPath, 'gpath'), (GroupInput, 'ginput'), (GroupOutput, 'goutput')):
+            if isinstance(d, cls):
+                return k
+        return '?'
+
+    def dev_line(self, i, d):
+        k = self.kind_of(d)
+        g = lambda a, dflt=None: getattr(d, a, dflt)  # noqa: E731
+        now = self.env.now
+        if k == 'processor':
+            lr = d._last_restore
+            up = d._uptime + ((now - lr) if lr is not None else 0)
+            lu = d._last_use_start
+            use = d._time_in_use + ((now - lu) if lu is not None else 0)
+            down = d._is_shut_down
+            rr = d._reserved_resources
+            resv = '-' if rr is None else '[' + self.req_str(rr._reserved_resources) + ']'
+            wres = d._waiting_for_resources
+        else:
+            up = use = 0
+            down = False
+            resv = '-'
+            wres = False
+        handler = isinstance(d, PartHandler)
+        mx = g('_max_produced_parts', INF)
+        buf = g('_buffer', [])
+        return (f'd {i} {k} part={self.pidx(g("_part"))} out={self.pidx(g("_output"))} '
+                f'wds={ival(bool(g("_waiting_for_downstream_space", False)))} '
+                f'since={ticks(g("_waiting_for_part_since")) if handler else "-"} blk={ival(d._block_input)} '
+                f'down={ival(down)} resv={resv} wres={ival(wres)} up={ticks(up)} use={ticks(use)} '
+                f'val={ival(d.value)} vh={len(d.value_history)} prod={ival(g("_produced_parts", 0))} '
+                f'cost={ival(g("_cost_of_produced_parts", 0))} max={ival(mx)} '
+                f'recv={ival(g("_received_parts_count", 0))} rval={ival(g("_value_of_received_parts", 0))} '
+                f'lvl={ival(g("_level", 0))} buf={jn(";", (f"{ticks(t)}:{self.pidx(p)}" for t, p in buf))} '
+                f'inprog={self.pidx(g("_in_progress_batch"))} '
+                f'coll={jn(";", (self.pidx(p) for p in g("collected_parts", [])))} '
+                f'cyc={ticks(g("_cycle_time", 0))} off={ticks(g("_next_cycle_time_offset", 0))} '
+                f'dn={jn(";", (str(self.didx(x)) for x in d._downstream))} '
+                f'ups={jn(";", (str(self.didx(x)) for x in d._upstream))}')
+
+    def live_parts(self):
+        acc = []
+
+        def add(p):
+            if p is None:
+                return
+            if p not in acc:
+                acc.append(p)
+            if isinstance(p, Batch):
+                for k in p.parts:
+                    if k not in acc:
+                        acc.append(k)
+        for d in self.devs:
+            add(getattr(d, '_part', None))
+            add(getattr(d, '_output', None))
+            for _, p in getattr(d, '_buffer', []):
+                add(p)
+            add(getattr(d, '_in_progress_batch', None))
+            for p in getattr(d, 'collected_parts', []):
+                add(p)
+        return acc
+
+    def part_line(self, p):
+        kids = '[' + jn(';', (self.pidx(k) for k in p.parts)) + ']' if isinstance(p, Batch) else '-'
+        return (f'p {self.pidx(p)} q={ival(p.quality)} v={ival(p.value)} '
+                f'hist={jn(";", (str(self.didx(x)) for x in p._routing_history))} '
+                f'stack={jn(";", (str(self.didx(x)) for x in p._group_pathing))} kids={kids}')
+
+    def order_str(self, o):
+        return f'{getattr(o, "_vseq", "?")}:{self.tgt_of.get(id(o.target), "?")}:{ival(o.tag)}:{ival(o.needed_capacity)}'
+
+    def flush_results(self):
+        super().flush_results()
+        for label, sub, dp in self.records:
+            self.out.append(self.rec_line(label, sub, dp))
+        self.records = []
+
+    def dump_ext(self):
+        rm = self.system.resource_manager
+        o = self.out
+        for name, (u, c) in rm._resources.items():
+            o.append(f'r {self.rid(name)} use={ival(u)} cap={ival(c)}')
+        if rm._waiting_requests:
+            items = []
+            for req, cb in rm._waiting_requests:
+                s = getattr(cb, '__self__', None)
+                tag = f's{cb.k}' if hasattr(cb, 'k') else (f'p{self.didx(s)}' if s is not None else '?')
+                items.append(self.req_str(req) + '@' + tag)
+            o.append('wq ' + ','.join(items))
+        for h, v in enumerate(self.vars):
+            o.append(f'h {h} ' + ('none' if v is None else '[' + self.req_str(v._reserved_resources) + ']'))
+        for i, d in enumerate(self.devs):
+            o.append(self.dev_line(i, d))
+        for p in self.live_parts():
+            o.append(self.part_line(p))
+        for i, m in enumerate(self.maints):
+            o.append(f'm {i} util={ival(m._utilization)} avail={ival(m.available_capacity)} '
+                     f'queue={jn(";", (self.order_str(x) for x in m._request_queue))} '
+                     f'active={jn(";", (self.order_str(x) for x in m._active_requests))} '
+                     f'val={ival(m.value)} vh={len(m.value_history)}')
+        for i, s in enumerate(self.scheds):
+            reg = jn(';', (f'{ob.k}:{"-" if a is None else a.__defaults__[0]}' for ob, a in s._registered_objects.items()))
+            o.append(f's {i} state={ival(s.current_state)} reg={reg}')
+        for i, s in enumerate(self.sensors):
+            data = jn('|', (jn(';', (self.sval(x) for x in s.data[p])) for p in s._probes))
+            tm = jn(';', (ticks(x) for x in s.data.get('time', [])))
+            o.append(f'n {i} data={data} time={tm} last={jn(";", (self.sval(x) for x in s.last_sense))}')
